@@ -7,7 +7,26 @@
 //! smallest size): the minimiser shrinks a failing run by deleting and
 //! zeroing entries of the list, and a list that has run out yields zeros.
 
+use std::sync::Mutex;
+
 use crate::prng::Prng;
+
+/// Copy of the decisions of the run in progress, readable from a watchdog
+/// thread when the run itself never returns (hang).
+static MIRROR: Mutex<Option<Vec<u64>>> = Mutex::new(None);
+
+pub fn mirror_start() {
+  *MIRROR.lock().unwrap_or_else(|e| e.into_inner()) = Some(Vec::with_capacity(256));
+}
+
+pub fn mirror_snapshot() -> Option<Vec<u64>> {
+  MIRROR.lock().unwrap_or_else(|e| e.into_inner()).clone()
+}
+
+pub fn mirror_stop() {
+  *MIRROR.lock().unwrap_or_else(|e| e.into_inner()) = None;
+}
+
 
 pub struct Chooser {
   rng: Option<Prng>,
@@ -70,6 +89,11 @@ impl Chooser {
       }
     };
     self.record.push(v);
+    if let Ok(mut m) = MIRROR.try_lock() {
+      if let Some(r) = m.as_mut() {
+        r.push(v);
+      }
+    }
     v
   }
 
